@@ -13,7 +13,11 @@ import (
 	"a0verif/plan"
 
 	"github.com/islishude/bip39"
+	"github.com/islishude/bip39/zzclock"
 )
+
+// the simulated device reports the time its scripted reads take to the clock seam of the scratch copy
+func init() { dev.ClockJump = zzclock.Jump }
 
 func q(s string) string { return strconv.QuoteToASCII(s) }
 
@@ -60,6 +64,9 @@ func Exec(op *plan.Op, d *dev.Dev) (o plan.Outcome, h Held) {
 			o = plan.Outcome{Panic: q(fmt.Sprint(r))}
 		}
 	}()
+	if op.J != 0 {
+		zzclock.Jump(op.J) // the simulated caller was idle for that long
+	}
 	lang := bip39.Language(op.Lang)
 	switch op.K {
 	case "ent":
